@@ -1086,6 +1086,12 @@ func (rs *s3ClientStorage) CompleteMultipartUpload(ctx context.Context, bucketNa
 			Parts: mapCompleteMultipartUploadParts(opts.Parts),
 		}
 	}
+	if opts != nil {
+		input.IfMatch = opts.IfMatchETag
+		if opts.IfNoneMatchStar {
+			input.IfNoneMatch = aws.String("*")
+		}
+	}
 	completeMultipartUploadResult, err := rs.s3Client.CompleteMultipartUpload(ctx, input)
 	var notFoundError *types.NotFound
 	if err != nil && errors.As(err, &notFoundError) {
